@@ -100,11 +100,15 @@ package match
 //@
 //@ func typeMatcher.YAML(t, b) returns (out, errs)
 //@   mode ctl
+//@   option paths-in-loops
 //@   assigns alloc, yfile
 //@   ensures [parse_error] yParseErr(b) != nil ==> out == b && len(errs) == 1
 //@   ensures [errors_bound] yParseErr(b) == nil ==> len(errs) <= len(t.paths)
+//@   ensures [fold] yParseErr(b) == nil ==> out == yRender(typeDocY(yParse(b), arr(t.paths), t.errOnMissingPath, len(t.paths)), suffixof("\n", b))
+//@   ensures [errors] yParseErr(b) == nil ==> len(errs) == typeErrY(yParse(b), arr(t.paths), t.errOnMissingPath, len(t.paths))
 //@   loop 1 invariant 0 <= $idx && $idx <= len(t.paths) && f != nil && !old(alloc)[f] && len(errs) <= $idx
 //@   loop 1 invariant forall r Ref: old(alloc)[r] ==> yfile[r] == old(yfile)[r]
+//@   loop 1 invariant yfile[f] == typeDocY(yParse(b), arr(t.paths), t.errOnMissingPath, $idx) && len(errs) == typeErrY(yParse(b), arr(t.paths), t.errOnMissingPath, $idx)
 //@
 //@ func (*customMatcher).YAML(c, b) returns (out, errs)
 //@   mode ctl
